@@ -150,7 +150,7 @@ fn one_corruption(ctx: &mut Ctx) {
     let mut header_tamper = false;
     let kind: &str = *gen::t(|t| {
         t.pick(&[
-            "bit-flip", "bit-flip-header", "bit-flip-payload", "overwrite", "payload-swap", "trailing-garbage", "truncate", "header-tamper-recomputed",
+            "bit-flip", "bit-flip-header", "bit-flip-payload", "overwrite", "payload-swap", "trailing-garbage", "truncate", "header-tamper-recomputed", "magic-swap-and-header-change", "truncate-at-chunk-boundary",
             "server-wrong-bytes", "server-error-page", "server-short-body", "verify-header-wrong", "verify-header-right",
         ])
     });
@@ -210,6 +210,33 @@ fn one_corruption(ctx: &mut Ctx) {
             presented.truncate(k);
             in_header = k < ra.header_len;
             what = format!("truncated to {} of {} bytes", k, n);
+        }
+        "magic-swap-and-header-change" => {
+            // someone who knows the format: the other accepted magic plus a change in the header,
+            // stored checksum left as it was
+            presented[..6].copy_from_slice(if &a[..6] == crate::refmodel::format::MAGIC { crate::refmodel::format::LEGACY_MAGIC } else { crate::refmodel::format::MAGIC });
+            if gen::chance(3, 4) {
+                let byte = 14 + gen::draw((ra.header_len - 14 - 64) as u32) as usize;
+                presented[byte] ^= 1 << gen::draw(8);
+                what = format!("magic replaced by the other accepted magic and bit flipped in header byte {}", byte);
+            } else {
+                what = "magic replaced by the other accepted magic".to_string();
+            }
+            in_header = true;
+            if gen::chance(1, 2) && f.level2 {
+                extra.verify_header = Some(gen::hex(&ra.header_checksum));
+            }
+        }
+        "truncate-at-chunk-boundary" => {
+            // exactly at the stored offset of a chunk: the next read meets end of file at once
+            let ds = &ra.dict.descriptors;
+            if ds.is_empty() {
+                return;
+            }
+            let i = gen::draw(ds.len() as u32) as usize;
+            let k = (ra.chunk_data_offset + ds[i].archive_offset) as usize;
+            presented.truncate(k);
+            what = format!("truncated to {} bytes = the stored offset of chunk {}", k, i);
         }
         "header-tamper-recomputed" => {
             // a structurally valid header with a fresh checksum: only --verify-header can tell
@@ -277,7 +304,8 @@ fn one_corruption(ctx: &mut Ctx) {
         "overwrite" => "fault:Overwrite",
         "payload-swap" => "fault:PayloadSwap",
         "trailing-garbage" => "fault:TrailingGarbage",
-        "truncate" => "fault:Truncate",
+        "truncate" | "truncate-at-chunk-boundary" => "fault:Truncate",
+        "magic-swap-and-header-change" => "fault:MagicSwapHeaderChange",
         "header-tamper-recomputed" => "fault:HeaderTamper",
         "server-wrong-bytes" | "server-error-page" | "server-short-body" => "fault:LyingServer",
         _ => "verify-header-option",
@@ -298,7 +326,7 @@ fn one_corruption(ctx: &mut Ctx) {
                 );
                 return;
             }
-            if in_header && !kind.starts_with("server") && kind != "truncate" {
+            if in_header && !kind.starts_with("server") && !kind.starts_with("truncate") {
                 ctx.fail("header-change-not-rejected", format!("{}: a change inside the header was not rejected; {}", what, desc));
                 return;
             }
